@@ -164,14 +164,14 @@ template <typename T>
 SymmetricTridiagonalSolver<T>::SymmetricTridiagonalSolver(const SymmetricTridiagonalSolver& other)
     : matrix_dimension_(other.matrix_dimension_)
     , main_diagonal_values_(std::make_unique<T[]>(matrix_dimension_))
-    , sub_diagonal_values_(std::make_unique<T[]>(matrix_dimension_ - 1))
+    , sub_diagonal_values_(std::make_unique<T[]>(std::max(matrix_dimension_ - 1, 0)))
     , cyclic_corner_element_(other.cyclic_corner_element_)
     , is_cyclic_(other.is_cyclic_)
 {
     std::copy(other.main_diagonal_values_.get(), other.main_diagonal_values_.get() + matrix_dimension_,
               main_diagonal_values_.get());
-    std::copy(other.sub_diagonal_values_.get(), other.sub_diagonal_values_.get() + matrix_dimension_ - 1,
-              sub_diagonal_values_.get());
+    std::copy(other.sub_diagonal_values_.get(),
+              other.sub_diagonal_values_.get() + std::max(matrix_dimension_ - 1, 0), sub_diagonal_values_.get());
 }
 
 // copy assignment
@@ -186,14 +186,14 @@ SymmetricTridiagonalSolver<T>& SymmetricTridiagonalSolver<T>::operator=(const Sy
     if (matrix_dimension_ != other.matrix_dimension_) {
         matrix_dimension_     = other.matrix_dimension_;
         main_diagonal_values_ = std::make_unique<T[]>(matrix_dimension_);
-        sub_diagonal_values_  = std::make_unique<T[]>(matrix_dimension_ - 1);
+        sub_diagonal_values_  = std::make_unique<T[]>(std::max(matrix_dimension_ - 1, 0));
     }
     cyclic_corner_element_ = other.cyclic_corner_element_;
     is_cyclic_             = other.is_cyclic_;
     std::copy(other.main_diagonal_values_.get(), other.main_diagonal_values_.get() + matrix_dimension_,
               main_diagonal_values_.get());
-    std::copy(other.sub_diagonal_values_.get(), other.sub_diagonal_values_.get() + matrix_dimension_ - 1,
-              sub_diagonal_values_.get());
+    std::copy(other.sub_diagonal_values_.get(),
+              other.sub_diagonal_values_.get() + std::max(matrix_dimension_ - 1, 0), sub_diagonal_values_.get());
     return *this;
 }
 
